@@ -140,6 +140,9 @@ def timer_apis(fx, regs):
 
 
 def timer_coroutines(fx):
+    """the futures that are timers: coroutines that sleep. When the sleeping body is a crate-private `async fn` that another
+    coroutine awaits (`async move { let Err(e) = send_every(myself, msg, d).await; .. }`), the timer is that outer future —
+    the rules look at it with the helper inlined"""
     out = []
     for f in fx.d["fns"]:
         if f["kind"] != "coroutine":
@@ -147,7 +150,23 @@ def timer_coroutines(fx):
         b = Body(f)
         if any(nfa.trait_method(T_SPAWNF, "sleep")(t) for _, t in b.normal_calls()):
             out.append(f)
-    return out
+    res = []
+    for f in out:
+        work, seen = [f], set()
+        while work:
+            g = work.pop()
+            if g["def"] in seen:
+                continue
+            seen.add(g["def"])
+            parent = fx.fn(g.get("parent") or "") or {}
+            outer = []
+            if parent.get("is_async") and parent.get("kind") in ("fn", "assoc_fn") and parent.get("vis") != "pub" and len(seen) <= 3:
+                outer = [h for h, _bi, t in graph.all_calls(fx, lambda t, _n=parent["def"]: (t.get("resolved") or t.get("callee")) == _n) if h["kind"] == "coroutine"]
+            if outer:
+                work.extend(outer)
+            elif g["def"] not in {r["def"] for r in res}:
+                res.append(g)
+    return res
 
 
 class Creation:
@@ -274,3 +293,58 @@ def _const_of(body, o):
         if len(vs) == 1 and None not in vs:
             return next(iter(vs))
     return None
+
+
+def sleeping_fns(fx):
+    """crate `async fn`s whose future can be parked in a sleep: their body awaits `SpawnFutures::sleep`, or the future of
+    another such function (`send_every(myself, msg, d)` awaited by a timer's async block)"""
+    if getattr(fx, "_sleeping_fns", None) is not None:
+        return fx._sleeping_fns
+    out = set()
+    changed = True
+    while changed:
+        changed = False
+        for d, co in fx.coroutines.items():
+            f = fx.fn(d) or {}
+            p = fx.fn(f.get("parent") or "") or {}
+            if not (p.get("is_async") and p.get("kind") in ("fn", "assoc_fn")) or p["def"] in out:
+                continue
+            if any(is_sleeping_suspension(fx, co, s_, out) for s_ in co.get("suspensions", [])):
+                out.add(p["def"])
+                changed = True
+    fx._sleeping_fns = out
+    return out
+
+
+def is_sleeping_suspension(fx, co, s, sleeping=None):
+    """at this suspension point the coroutine is (or may be) waiting for a sleep: a saved local that is live here is the
+    runtime's sleep future, or the future of a crate function that sleeps"""
+    if sleeping is None:
+        sleeping = sleeping_fns(fx)
+    for i in s["live"]:
+        ty = co["saved"][i]
+        if "SpawnFutures::sleep" in ty:
+            return True
+        if any(("impl{%s::{opaque#" % p) in ty for p in sleeping):
+            return True
+    return False
+
+
+def held_while_sleeping(fx, s):
+    """the keep-alive atoms a coroutine holds at suspension point `s` *beside* the sleeping helper it is parked in: what that
+    helper's future owns is judged at the helper's own suspension points (it may hold an upgraded sender while a send is
+    pending, which is not while it sleeps)"""
+    import own, re
+    sl = sleeping_fns(fx)
+    out = []
+    for c_, p_, a in own.keepalive_atoms(s["atoms"]):
+        keep = False
+        for pth in a.get("paths", []):
+            segs = [x for x in pth.split("/") if x]
+            m = re.match(r"\[([^\]]+)\]", segs[1]) if len(segs) > 1 else None
+            inner = fx.fn(m.group(1)) if m else None
+            if not (inner is not None and inner["kind"] == "coroutine" and inner.get("parent") in sl):
+                keep = True
+        if keep:
+            out.append((c_, p_, a))
+    return out
